@@ -25,8 +25,8 @@
     * the text codec of DATE-TIME / DATE / DURATION is ICal.Model.Codec (C03); this file adds the zone.
     * `datetime - timedelta` (`astimezone(UTC)`) needs the proleptic Gregorian day count: `toDays`/`ofDays`.
       `ofSec` re-checks its own answer (`toSec (ofSec n) = n` and the fields are a valid date), so the theorems
-      about instants need no trust in the closed formula; that it always answers is checked by correspondence
-      against CPython (every day 1899-2101 in the quick tier).
+      about instants need no trust in the closed formula; that it answers exactly on the `datetime` range (years
+      1..9999) is proved in Lemmas/Civil.lean (`ofSec_isSome_iff`) and also run against CPython by correspondence.
   Import-free apart from ICal.Model.Codec / ICal.Gen.Cal: linked into the native driver.
 -/
 import ICal.Model.Codec
